@@ -30,12 +30,49 @@ Proof.
     exact (li_rules_live _ _ I e He).
 Qed.
 
+(* not yet authenticated implies not yet registered *)
+Lemma cnt_le_impl {A} (p q : A -> bool) l : (forall x, In x l -> p x = true -> q x = true) -> cnt p l <= cnt q l.
+Proof.
+  induction l as [|x l IH]; intros H; [reflexivity|]. rewrite !cnt_cons.
+  assert (IH' : cnt p l <= cnt q l) by (apply IH; intros y Hy; apply H; right; exact Hy).
+  specialize (H x (or_introl eq_refl)). unfold b2n. destruct (p x); [rewrite H by reflexivity|]; destruct (q x); lia.
+Qed.
+
+Lemma cnt_by_id_cd (p : cdata -> bool) ds : NoDup (cids ds) ->
+  cnt p ds = cnt (fun i => match find_cd ds i with Some d => p d | None => false end) (cids ds).
+Proof.
+  induction ds as [|y ds IH]; intros N; [reflexivity|]. inversion N; subst. simpl cids. rewrite !cnt_cons. simpl find_cd at 2. rewrite N.eqb_refl.
+  f_equal. rewrite (IH H2). apply cnt_ext. intros i Hi. simpl. destruct (d_id y =? i) eqn:E; [|reflexivity].
+  apply N.eqb_eq in E. subst i. contradiction.
+Qed.
+
+Lemma cnt_by_id_conn (p : conn -> bool) cs : NoDup (ids cs) ->
+  cnt p cs = cnt (fun i => match find_conn cs i with Some x => p x | None => false end) (ids cs).
+Proof.
+  induction cs as [|y cs IH]; intros N; [reflexivity|]. inversion N; subst. simpl ids. rewrite !cnt_cons. simpl find_conn at 2. rewrite N.eqb_refl.
+  f_equal. rewrite (IH H2). apply cnt_ext. intros i Hi. simpl. destruct (c_id y =? i) eqn:E; [|reflexivity].
+  apply N.eqb_eq in E. subst i. contradiction.
+Qed.
+
+Lemma linv_unauthenticated_le L s : linv L s -> n_unauthenticated s <= n_unregistered s.
+Proof.
+  intros I. unfold n_unauthenticated, n_unregistered.
+  change (cnt (fun d => negb (d_auth d)) (s_cdata s) <= cnt (fun x => negb (c_active x)) (s_conns s)).
+  rewrite (cnt_by_id_cd _ _ (linv_nodup_cd L s I)), (cnt_by_id_conn _ _ (linv_nodup L s I)), (li_ids _ _ I).
+  apply cnt_le_impl. intros i Hi Hp.
+  destruct (in_ids_find _ _ Hi) as [x Hx]. rewrite Hx.
+  destruct (c_active x) eqn:Ha; [|reflexivity]. exfalso.
+  pose proof (li_auth _ _ I i) as A. unfold registered, authenticated in A. rewrite Hx in A. specialize (A Ha).
+  destruct (find_cd (s_cdata s) i) as [d|]; [|discriminate]. rewrite A in Hp. discriminate.
+Qed.
+
 Theorem linv_within L s : linv L s -> within_limits L s.
 Proof.
   intros I. constructor.
   - rewrite <- (li_ncomp _ _ I). exact (li_comp_le _ _ I).
   - intros u. rewrite <- (li_user _ _ I u). exact (li_user_le _ _ I u).
   - rewrite <- (li_ninc _ _ I). exact (li_inc_le _ _ I).
+  - pose proof (linv_unauthenticated_le L s I). pose proof (li_inc_le _ _ I). rewrite (li_ninc _ _ I) in *. lia.
   - intros c. apply linv_names_le. exact I.
   - intros c. apply linv_rules_le. exact I.
   - exact (li_pend_le _ _ I).
@@ -112,12 +149,25 @@ Proof.
   pose proof (step_error_noop _ _ _ _ Hin Eo) as Hb. rewrite Es in Hb. simpl in Hb. subst b'. apply with_reg_same.
 Qed.
 
-Theorem refusal_changes_nothing_proved : refusal_changes_nothing.
+(* A refusal changes nothing - except that a method call which carries a REPLY_SERIAL has, by then, already used up
+   the reply slot that serial referred to (bus_connections_check_reply runs first and is not undone). *)
+Definition after_refusal (s : state) (e : levent) : state :=
+  match e with
+  | Call c d _ _ rserial => if rserial =? 0 then s else with_pending s (check_reply (s_pending s) d c rserial)
+  | _ => s
+  end.
+
+Lemma with_pending_same s : with_pending s (s_pending s) = s.
+Proof. destruct s; reflexivity. Qed.
+
+Theorem refusal_effect L s e : refusal (snd (lstep L s e)) = true -> fst (lstep L s e) = after_refusal s e.
 Proof.
-  intros L s e. destruct e; cbn [lstep].
+  destruct e; cbn [lstep after_refusal].
   - destruct (max_incomplete_connections L <=? s_nincomplete s); [reflexivity|]. simpl. discriminate.
+  - destruct (find_cd (s_cdata s) c) as [d|]; [|reflexivity]. destruct (d_auth d); [reflexivity | simpl; discriminate].
   - destruct (find_conn (s_conns s) c) as [cn|] eqn:Hf; [|reflexivity].
     destruct (find_cd (s_cdata s) c) as [d|]; [|reflexivity].
+    destruct (negb (d_auth d)); [reflexivity|].
     destruct (c_active cn) eqn:Ha; [reflexivity|].
     destruct (max_completed_connections L <=? s_ncomplete s); [reflexivity|].
     destruct (max_connections_per_user L <=? get_uid (s_byuser s) (d_uid d)); [reflexivity|].
@@ -134,11 +184,15 @@ Proof.
   - destruct (find_conn (s_conns s) c) as [cn|]; [|reflexivity]. destruct (find_cd (s_cdata s) c) as [d|]; [|reflexivity].
     destruct (negb (c_active cn)); [reflexivity|]. destruct rule; [|reflexivity].
     destruct (remove_rule (s_rules s) c n); [simpl; discriminate | reflexivity].
-  - destruct (find_conn (s_conns s) c) as [cn|]; [|reflexivity].
+  - destruct (find_conn (s_conns s) c) as [cn|]; [|simpl; discriminate].
     destruct (negb (c_active cn)); [rewrite disconnect_no_refusal; discriminate|].
-    destruct (negb (is_active s d)); [reflexivity|]. destruct noreply; [reflexivity|].
-    destruct (expect_scan (s_pending s) c d serial 0); [|reflexivity].
-    destruct (max_replies_per_connection L <=? n); [reflexivity | simpl; discriminate].
+    destruct (negb (is_active s d)); [simpl; discriminate|].
+    destruct noreply; [simpl; discriminate|].
+    destruct (rserial =? 0).
+    + destruct (expect_scan (s_pending s) c d serial 0); [|simpl; discriminate].
+      destruct (max_replies_per_connection L <=? n); [intros _; apply with_pending_same | simpl; discriminate].
+    + destruct (expect_scan (check_reply (s_pending s) d c rserial) c d serial 0); [|simpl; discriminate].
+      destruct (max_replies_per_connection L <=? n); [reflexivity | simpl; discriminate].
   - destruct (find_conn (s_conns s) d) as [dn|]; [|reflexivity].
     destruct (negb (c_active dn)); [rewrite disconnect_no_refusal; discriminate|].
     destruct (negb (is_active s c)); [reflexivity | simpl; discriminate].
@@ -147,4 +201,9 @@ Proof.
     destruct (negb (c_active cn)); [rewrite disconnect_no_refusal; discriminate | reflexivity].
   - destruct (find_conn (s_conns s) c) as [cn|]; [|reflexivity].
     destruct (too_long L hdr); [rewrite disconnect_no_refusal; discriminate | reflexivity].
+Qed.
+
+Theorem refusal_changes_nothing_partial L s e : plain e = true -> refusal (snd (lstep L s e)) = true -> fst (lstep L s e) = s.
+Proof.
+  intros Hp H. rewrite (refusal_effect L s e H). destruct e; try reflexivity. simpl in Hp. simpl. rewrite Hp. reflexivity.
 Qed.
